@@ -313,10 +313,9 @@ func eqTree(got interface{}, want *Node) bool {
 		}
 		return g == want.S
 	}
-	// config
-	if want.dictLen() == 0 {
-		l, ok := got.([]interface{})
-		if !ok || len(l) != len(want.List) {
+	// config: a list-only node unpacks as a list (as a map with keys "0","1",.. when it is the root)
+	if l, ok := got.([]interface{}); ok {
+		if want.dictLen() != 0 || len(l) != len(want.List) {
 			return false
 		}
 		res := true
@@ -348,10 +347,25 @@ func eqTree(got interface{}, want *Node) bool {
 	return res
 }
 
+// unpackTree returns the generic view of the whole config: the dictionary part
+// as a map; the list part of the root (which a map target does not receive) is
+// unpacked separately and shown under the keys "0","1",...
 func unpackTree(c *ucfg.Config, opts ...ucfg.Option) (interface{}, error) {
 	var m map[string]interface{}
 	if err := c.Unpack(&m, opts...); err != nil {
 		return nil, err
+	}
+	if c.IsArray() {
+		var l []interface{}
+		if err := c.Unpack(&l, opts...); err != nil {
+			return nil, err
+		}
+		if m == nil {
+			m = map[string]interface{}{}
+		}
+		for i, e := range l {
+			m[itoa(i)] = e
+		}
 	}
 	return m, nil
 }
